@@ -115,6 +115,46 @@ func init() {
 			fr.i.doCover(argString(args[0]))
 			return nil
 		},
+		"verifTier": func(fr *frame, args []value) value { return fr.i.run.opts.Tier },
+		"verifAssertKnown": func(fr *frame, args []value) value {
+			// verifAssertKnown(c, label, kfID, inClass): like verifAssert, but if kfID is a
+			// listed known finding, violations inside the class predicate are reported as
+			// KNOWN-FINDING and only violations outside it are violations.
+			i := fr.i
+			label, kf := argString(args[1]), argString(args[2])
+			if !i.run.opts.Known[kf] {
+				i.doAssert(fr, args[0], label)
+				return nil
+			}
+			tc := i.tc
+			c, in := tc.boolTerm(args[0]), tc.boolTerm(args[3])
+			i.doAssert(fr, tc.mkBool(tc.Or(in, c)), label)
+			// inside the class: is the listed finding still reproducible here?
+			q := append(append([]*Term{}, i.pc...), tc.And(in, tc.Not(c)))
+			hit := false
+			var model map[string]string
+			if tc.And(in, tc.Not(c)).IsTrue() {
+				hit = true
+				model = i.fullModel(i.model)
+			} else if !tc.And(in, tc.Not(c)).IsFalse() {
+				if r := i.solve(q, i.run.opts.AssertMs); r.Status == "sat" {
+					hit = true
+					model = i.fullModel(r.Model)
+				}
+			}
+			if hit {
+				i.res.KnownHits = append(i.res.KnownHits, KnownHit{ID: kf, Harness: i.run.fn.Name(), Label: label, Model: model})
+			}
+			switch cc := args[0].(type) {
+			case bool:
+				if !cc {
+					panic(abort{"assume-false", "known finding " + kf})
+				}
+			case symBool:
+				i.assume(cc.t, "after known finding "+kf)
+			}
+			return nil
+		},
 		"verifFail": func(fr *frame, args []value) value {
 			panic(abort{"unsupported", "harness failure: " + argString(args[0])})
 		},
